@@ -461,12 +461,15 @@ def diff_stage(rep, name, cases, judge, expand=None, max_report=5):
 
 
 def finish_proof_failures(rep):
-    """After the searches: if a proof obligation failed and nothing concrete was found, say so."""
+    """After the searches: a broken proof obligation with no concrete failing input found is still reported,
+    naming the theorem / build target that no longer checks, with the no-failing-input-found suffix."""
     fails = getattr(rep, "_proof_failures", [])
-    if fails and not any(s == "" for _, s in rep.violations):
-        rep.violation({"kind": "proof-obligation-broken", "what": fails}, concrete=False)
-    elif fails:
-        rep.violation({"kind": "proof-obligation-broken", "what": fails}, concrete=False)
+    if not fails:
+        return
+    rep.cov["proof_failures"] = fails
+    if any(s == "" for _, s in rep.violations):
+        return        # a concrete failing input is already reported; the broken obligation is recorded in the evidence
+    rep.violation({"kind": "proof-obligation-broken", "what": fails}, concrete=False)
 
 
 def build_both(rep):
